@@ -9,9 +9,10 @@ from tools.lib import Case, f2hex, hex2f, cps
 
 ID = 'C19'
 RULE = ('(1) EXHAUSTIVE sequences over the 15 token kinds {2, 0, 1, x, y, pi, sin, + - * / ^ ! ( )}: every sequence up to '
-        'length 4 (thorough: 5) both as a token vector handed to the parser hook and rendered to text and lexed by the real '
-        'lexer; beyond that length every sequence that has a conventional reading (reference reader) up to length 6 '
-        '(thorough: 7) plus a random sample of the others (11.4 M / 171 M sequences are too many to run); '
+        'length 4 (thorough: 5; 54 241 / 813 616 sequences) rendered to text and lexed by the real lexer, and also handed '
+        'to the parser hook as a token vector where the text lexes to other tokens (adjacent digits or letters merge); '
+        'thorough: every sequence of length 6 that has a conventional reading (596 784); beyond that random samples of '
+        'readable and of arbitrary sequences up to length 7 (all 11.4 M / 171 M sequences are too many to run); '
         '(2) random expression trees of depth <= 6 over + - * / ^ % unary minus, !, six functions, four constants, '
         'juxtaposition, rendered with minimal and with redundant parentheses; (3) arbitrary strings up to 200 characters '
         '(ASCII, keywords, non-ASCII) and mutations of valid text, for totality; (4) arbitrary trees (all operator tags, '
@@ -414,11 +415,11 @@ POINT_VALUES = [
 
 def envs(salt):
     """4 evaluation points; the value of a variable depends on its name, the point and the case"""
+    h = hashlib.sha1(salt.encode()).digest()
     out = []
     for k, vals in enumerate(POINT_VALUES):
-        def env(name, k=k, vals=vals):
-            h = hashlib.sha1(('%s|%d|%s' % (name, k, salt)).encode()).digest()
-            return vals[h[0] % len(vals)]
+        def env(name, k=k, vals=vals, off=h[k]):
+            return vals[(sum(map(ord, name)) * 7 + off + len(name)) % len(vals)]
         out.append(env)
     return out
 
@@ -551,7 +552,7 @@ def is_op(t, names):
 
 def cls_unary_swallow(ts):
     """F16a: a prefix minus standing directly after one of / % ^ · * and followed, before the next + or binary - or
-    closing parenthesis of its level, by an explicit * / or %"""
+    closing parenthesis of its level, by an explicit * / % or ·"""
     for i, t in enumerate(ts):
         if is_op(t, ('Sub',)) and i > 0 and is_op(ts[i - 1], ('Div', 'Rem', 'Caret', 'CDot', 'Mul')):
             depth, j = 0, i + 1
@@ -565,7 +566,7 @@ def cls_unary_swallow(ts):
                         break
                 elif depth == 0 and u[0] == 'o':
                     prefix = is_op(ts[j - 1], tuple(OPS)) and not is_op(ts[j - 1], ('Fac',))
-                    if u[1] in ('Mul', 'Div', 'Rem'):
+                    if u[1] in ('Mul', 'Div', 'Rem', 'CDot'):
                         return True
                     if u[1] == 'Add' or (u[1] == 'Sub' and not prefix):
                         break
@@ -591,14 +592,36 @@ def cls_func_swallow(ts):
     return False
 
 
+def before_in_product(ts, i, names):
+    """is one of the operators `names` found left of position i in the same product (same parenthesis level, scanning back
+    to the previous + , binary - or opening parenthesis)?"""
+    depth, j = 0, i - 1
+    while j >= 0:
+        u = ts[j]
+        if u == ('rp',):
+            depth += 1
+        elif u == ('lp',):
+            depth -= 1
+            if depth < 0:
+                return False
+        elif depth == 0 and u[0] == 'o':
+            if u[1] in names:
+                return True
+            prefix = j == 0 or ts[j - 1] == ('lp',) or (is_op(ts[j - 1], tuple(OPS)) and not is_op(ts[j - 1], ('Fac',)))
+            if u[1] == 'Add' or (u[1] == 'Sub' and not prefix):
+                return False
+        j -= 1
+    return False
+
+
 def cls_rem(ts):
-    """F16h: % together with an explicit * or / (or a · ) in the same text"""
-    return any(is_op(t, ('Rem',)) for t in ts) and any(is_op(t, ('Mul', 'Div', 'CDot')) for t in ts)
+    """F16h: a % with an explicit * or / to its left in the same product"""
+    return any(is_op(t, ('Rem',)) and before_in_product(ts, i, ('Mul', 'Div')) for i, t in enumerate(ts))
 
 
 def cls_cdot(ts):
-    """F16i: an explicit · together with / or %"""
-    return any(is_op(t, ('CDot',)) for t in ts) and any(is_op(t, ('Div', 'Rem')) for t in ts)
+    """F16i: an explicit · with a / or % to its left in the same product"""
+    return any(is_op(t, ('CDot',)) and before_in_product(ts, i, ('Div', 'Rem')) for i, t in enumerate(ts))
 
 
 def cls_zero_pow(u):
@@ -623,6 +646,13 @@ def leftmost_is_number(e):
             return False
 
 
+def open_right_prefix(e):
+    """the printed text of e ends in the operand of a prefix minus (which re-reading extends over what follows)"""
+    while e[0] == 'B' and not e[2]:
+        e = e[4]
+    return e[0] == 'P'
+
+
 def needs_paren(e):
     """an operand printed without parentheses although the printed operator sequence needs them:
     returns the set of reasons found in tree e (the tree that was printed)"""
@@ -643,6 +673,8 @@ def needs_paren(e):
                     why.add('prefix')
                 if c[0] == 'F' and side == 'l' and op == 'Caret':
                     why.add('func')
+            if pb >= 2 and l[0] == 'B' and not l[2] and open_right_prefix(l):
+                why.add('prefix')
             if op == 'Mul' and l[0] == 'N' and r[0] == 'B' and r[1] == 'Caret' and not r[2]:
                 if leftmost_is_number(r[3]):
                     why.add('numnum')
@@ -668,7 +700,7 @@ FINDINGS = {
     'F16b': 'a function swallows a following ^ or !: sin(x)^2 is read as sin(x^2), sin(x)! as sin(x!) (argument parsed with minimum power 5.0 instead of the parenthesised group only)',
     'F16c': 'fold_operations drops the paren flag when a rule returns an operand: (0+a*b)^2 folds to a tree printed as a * b ^ 2',
     'F16d': 'fold rule 0^_ = 0 is wrong where the exponent evaluates to 0: 0^x folds to 0 although x^0 folds to 1 (0^0 = 1 by the code\'s own rule)',
-    'F16e': 'Display prints a prefix minus under ^ or ! without parentheses: (-x)^2 prints as -x ^ 2 and reads back as -(x^2)',
+    'F16e': 'Display prints a prefix minus (written, or made by the fold rule 0-x) without the parentheses it needs before ^ or !: (-x)^2 prints as -x ^ 2 and reads back as -(x^2); x^(0-1)^y prints as x ^ -1 ^ y',
     'F16f': 'Display juxtaposes number and number: 5*2^3 prints as 52 ^ 3',
     'F16g': 'Display prints constants as π τ ϕ, which the lexer rejects (UnexpectedChar)',
     'F16h': '% binds tighter than * and /: 2*3%4 is read as 2*(3%4)',
@@ -705,20 +737,19 @@ def classify(case, impl):
             if c == C_DISP_ERR:
                 if d['rf'][0] == 'lexerr' and any(s[0] == 'C' and s[1] != 'E' for s in subtrees(f)):
                     got.append('F16g')
-                if d['rf'][0] == 'parseerr' and 'numnum' in needs_paren(f):
+                if 'numnum' in needs_paren(f):
                     got.append('F16f')
             else:
                 why = needs_paren(f)
-                ru_ok = d['ru'][0] == 'ok' and denotes_same(d['unfolded'], d['ru'][1], envs(case.line[:64]))
                 if 'numnum' in why:
                     got.append('F16f')
                 if 'prefix' in why:
                     got.append('F16e')
                 if 'func' in why:
                     got.append('F16l')
-                if 'juxt' in why and not ru_ok:
-                    got.append('F16j')
-                if ('paren' in why or 'juxt' in why) and f != d['unfolded'] and not needs_paren(d['unfolded']) - {'juxt'} >= {'paren'}:
+                if 'juxt' in why:
+                    got.append('F16j' if 'juxt' in needs_paren(d['unfolded']) else 'F16c')
+                if 'paren' in why:
                     got.append('F16c')
                 if any(s[0] == 'V' and s[1] in ('e', 'E') for s in subtrees(f)):
                     got.append('F16k')
@@ -815,51 +846,90 @@ def text_line(s, pre=''):
     return '%stext %s' % (pre, cps(s))
 
 
-def plausible(seq):
-    """cheap necessary condition for either reader to accept (balanced parentheses, legal ends)"""
-    first, last = seq[0], seq[-1]
-    if first[0] == 'rp' or (first[0] == 'o' and first[1] != 'Sub'):
-        return False
-    if last[0] in ('lp', 'f') or (last[0] == 'o' and last[1] != 'Fac'):
-        return False
-    d = 0
-    for t in seq:
-        if t[0] == 'lp':
-            d += 1
-        elif t[0] == 'rp':
-            d -= 1
-            if d < 0:
-                return False
-    return d == 0
+def readable_sequences(n):
+    """all sequences of n token kinds with a conventional reading, by depth-first search with the local adjacency rules
+    (after an operand: operator, !, ) or another operand; otherwise: an operand start) and balanced parentheses"""
+    starts = [t for t in KINDS if t[0] in ('n', 'v', 'c', 'f', 'lp') or t == ('o', 'Sub')]
+    after_operand = [t for t in KINDS if t != ('o', 'Sub') or True]
+    out = []
+
+    def go(seq, depth):
+        k = len(seq)
+        if k == n:
+            if depth == 0 and ref_read(seq) is not None:
+                out.append(tuple(seq))
+            return
+        prev = seq[-1] if seq else None
+        if prev is None or prev == ('lp',) or (prev[0] == 'o' and prev[1] != 'Fac'):
+            cands = starts
+        elif prev[0] == 'f':
+            cands = [('lp',)]
+        else:
+            cands = after_operand
+        for t in cands:
+            d = depth + (1 if t == ('lp',) else -1 if t == ('rp',) else 0)
+            if d < 0 or d > n - k - 1:
+                continue
+            seq.append(t)
+            go(seq, d)
+            seq.pop()
+    go([], 0)
+    return out
 
 
 def emit_tokens(seq, cls):
+    """the sequence rendered to text (lexed by the real lexer); where the text lexes to other tokens (adjacent
+    numbers or letters merge) the sequence is also handed over as a token vector"""
     seq = list(seq)
-    has = ref_read(seq) is not None
-    yield Case(toks_line(seq), cls + '-toks', None)
-    if has:
-        yield Case(toks_line(seq, 'c'), cls + '-toks', None)
     txt = ''.join(tok_text(t) for t in seq)
-    yield Case(text_line(txt), cls + '-text', None)
     lx = mini_lex(txt)
+    yield Case(text_line(txt), cls + '-text', None)
     if lx is not None and ref_read(lx) is not None:
         yield Case(text_line(txt, 'c'), cls + '-text', None)
+    if lx != seq:
+        yield Case(toks_line(seq), cls + '-toks', None)
+        if ref_read(seq) is not None:
+            yield Case(toks_line(seq, 'c'), cls + '-toks', None)
+
+
+def random_readable(rng, n):
+    starts = [t for t in KINDS if t[0] in ('n', 'v', 'c', 'f', 'lp') or t == ('o', 'Sub')]
+    for _ in range(200):
+        seq, depth = [], 0
+        for k in range(n):
+            prev = seq[-1] if seq else None
+            if prev is None or prev == ('lp',) or (prev[0] == 'o' and prev[1] != 'Fac'):
+                cands = starts
+            elif prev[0] == 'f':
+                cands = [('lp',)]
+            else:
+                cands = KINDS
+            cands = [t for t in cands
+                     if 0 <= depth + (1 if t == ('lp',) else -1 if t == ('rp',) else 0) <= n - k - 1]
+            if not cands:
+                break
+            t = rng.choice(cands)
+            depth += 1 if t == ('lp',) else -1 if t == ('rp',) else 0
+            seq.append(t)
+        if len(seq) == n and depth == 0 and ref_read(seq) is not None:
+            return seq
+    return [('v', 'x')]
 
 
 def gen_exhaustive(rng, tier):
-    full = 4 if tier == 'quick' else 5
-    readable = 6 if tier == 'quick' else 7
-    nsample = 3000 if tier == 'quick' else 40000
+    full = 4 if tier == 'quick' else 5          # every sequence
+    readable = 4 if tier == 'quick' else 6      # every sequence that has a conventional reading
     for n in range(0, full + 1):
         for seq in itertools.product(KINDS, repeat=n):
             yield from emit_tokens(seq, 'exh%d' % n)
     for n in range(full + 1, readable + 1):
-        for seq in itertools.product(KINDS, repeat=n):
-            if plausible(seq) and ref_read(list(seq)) is not None:
-                yield from emit_tokens(seq, 'exh%d-readable' % n)
-        for _ in range(nsample):
-            seq = [rng.choice(KINDS) for _ in range(n)]
-            yield from emit_tokens(seq, 'exh%d-sample' % n)
+        for seq in readable_sequences(n):
+            yield from emit_tokens(seq, 'exh%d-readable' % n)
+    for n, k in ((5, 6000), (6, 5000), (7, 4000)) if tier == 'quick' else ((6, 30000), (7, 150000)):
+        for _ in range(k):
+            yield from emit_tokens(random_readable(rng, n), 'exh%d-readable-sample' % n)
+        for _ in range(k // 4):
+            yield from emit_tokens([rng.choice(KINDS) for _ in range(n)], 'exh%d-sample' % n)
 
 
 # source trees of the random-expression generator (conventional AST):
@@ -1017,9 +1087,9 @@ def rand_tree(rng, depth, fold_bias):
             if rng.random() < fold_bias:
                 return ['num', rng.choice([0.0, 0.0, 1.0])]
             return ['num', rng.choice(NUMS)]
-        if r < 0.9:
+        if r < 0.95:
             return ['var', rng.choice(VARS)]
-        return ['const', rng.choice(list(CONSTS))]
+        return ['const', rng.choice(['E', 'E', 'E', 'Pi', 'Tau', 'Phi'])]
     r = rng.random()
     if r < 0.50:
         op = rng.choice(['Add', 'Sub', 'Mul', 'Div', 'Caret', 'Add', 'Sub', 'Mul', 'Div', 'Caret', 'Caret', 'Rem', 'CDot']
